@@ -256,3 +256,5 @@ EXTRA_EDITS = {
 add("C13", R, IV, "    return np.array([_join_names(row) for row in feature_columns.astype(str)])",
     "    merged = []\n    for row in feature_columns.astype(str):\n        merged.append(_join_names(row))\n    return np.array(merged)",
     "comprehension rewritten as an explicit loop")
+
+from . import corpus2  # noqa: E402,F401  (sweep- and seed-derived mutants; extends CORPUS)
